@@ -160,12 +160,19 @@ impl ShardStats {
         *self.faults.entry(kind.to_string()).or_insert(0) += 1;
     }
     pub fn fault_n(&mut self, kind: &str, n: u64) {
+        if n == 0 && !self.faults.contains_key(kind) {
+            return;
+        }
         *self.faults.entry(kind.to_string()).or_insert(0) += n;
     }
     pub fn probe(&mut self, name: &str) {
         *self.probes.entry(name.to_string()).or_insert(0) += 1;
     }
     pub fn probe_n(&mut self, name: &str, n: u64) {
+        // an undeclared probe that never fires is not reported as "stuck at zero"
+        if n == 0 && !self.probes.contains_key(name) {
+            return;
+        }
         *self.probes.entry(name.to_string()).or_insert(0) += n;
     }
     pub fn declare_probe(&mut self, name: &str) {
